@@ -30,7 +30,7 @@ MUTANTS = [
     m("c07-jacobian-swapped", "R3", "            matrices.EigendecomposedSymmetricMatrix(self.metric.eigvec, cos_omega_dt),\n        )", "            matrices.EigendecomposedSymmetricMatrix(self.metric.eigvec, sin_omega_dt),\n        )"),
     m("c07-euclid-jacobian-metric", "R3", "        return (dt * self.metric.inv, matrices.IdentityMatrix(self.metric.shape[0]))", "        return (dt * self.metric, matrices.IdentityMatrix(self.metric.shape[0]))"),
     m("c07-undo-F10", "R4", "    def diagonal(self) -> NDArray:\n        return np.ones(() if self.shape[0] is None else self.shape[0])", "    def diagonal(self) -> NDArray:\n        return np.ones(self.shape[0])", file=M),
-    m("c07-seed-cached-omega", "R5", "    def h2_flow(self, state: ChainState, dt: ScalarLike) -> None:\n        omega = 1.0 / self.metric.eigval**0.5", "    def _omega(self):\n        if self._om is None:\n            self._om = 1.0 / self.metric.eigval**0.5\n        return self._om\n\n    def h2_flow(self, state: ChainState, dt: ScalarLike) -> None:\n        omega = 1.0 / self.metric.eigval**0.5"),
+    m("c07-seed-cached-omega", "R5", "    def h2_flow(self, state: ChainState, dt: ScalarLike) -> None:\n        omega = 1.0 / self.metric.eigval**0.5", "    def _omega(self):\n        if self._om is None:\n            self._om = 1.0 / self.metric.eigval**0.5\n        return self._om\n\n    def h2_flow(self, state: ChainState, dt: ScalarLike) -> None:\n        omega = self._omega()"),
     m("c07-twin-omega-form", None, "    def h2_flow(self, state: ChainState, dt: ScalarLike) -> None:\n        omega = 1.0 / self.metric.eigval**0.5", "    def h2_flow(self, state: ChainState, dt: ScalarLike) -> None:\n        omega = self.metric.eigval**-0.5", twin=True),
     m("c07-twin-kick-form", None, "        state.mom -= dt * self.dh1_dpos(state)", "        state.mom = state.mom - self.dh1_dpos(state) * dt", twin=True),
 ]
